@@ -98,6 +98,8 @@ uint64_t exec_plan(const Plan &plan, Ctx &ctx)
 	sim_reset_run();
 	ctx.plan = &plan;
 	ctx.property = plan.property;
+	// allocator address reuse is a per-run knob of the plan (see SimAlloc::reuse)
+	g_alloc.reuse = plan.C("reuse") != 0;
 	pf->exec(ctx);
 	if (ctx.stats) {
 		ctx.stats->sim_seconds += g_clock.covered;
